@@ -142,6 +142,8 @@ lay!(U_S5, U_S5_l, 12, 14);
 lay!(U_S6, U_S6_l, 12, 14);
 lay!(U_PS, U_PS_l, 10, 12);
 lay!(U_E1, U_E1_l, 16, 18);
+lay!(U_E5, U_E5_l, 18, 20);
+lay!(X_U8P, X_U8P_l, 8, 10);
 lay!(U_E2, U_E2_l, 8, 10);
 lay!(U_E3, U_E3_l, 12, 14);
 lay!(U_E4, U_E4_l, 14, 16);
@@ -153,3 +155,4 @@ port!(V_P, V_P_p, 12, 14);
 port!(STRP, STRP_p, 9, 11);
 port!(U_PS, U_PS_p, 13, 15);
 port!(U_PE, U_PE_p, 14, 16);
+port!(X_U8P, X_U8P_p, 12, 14);
